@@ -177,6 +177,8 @@ def expected_from(kernel, dt, values, counts):
     if kernel == "mean":
         out = []
         for s, c in zip(values, counts):
+            if s is None and c and not DT[dt]["nullable"]:
+                s = MIN_INT      # plain integers hold no nulls: a sum equal to the int64 minimum is a number (decoding shows it as the marker)
             if c == 0 or s is None:
                 out.append(None)
             else:
